@@ -147,9 +147,21 @@ pub fn stress(rng: &mut Rng, fam: usize) -> Msg {
         }
         3 => {
             // names first occurring beyond offset 16383 (not addressable by a 14-bit pointer)
-            let pad = rng.range(16300, 16500);
-            m.sec[0].push(rec(Name::from_labels(&[b"pad"]), T_TXT, RData::Opaque(vec![0xc0; pad])));
             let far = Name(vec![lab(rng), b"far".to_vec(), b"example".to_vec()]);
+            // half of the time a label of the far name starts exactly at offset 16384 (or one before / after):
+            // the first offset a 14-bit pointer cannot express
+            let before = 12 + m.question[0].name.wire_len() + 4 + 5 + 10;
+            let pad = if rng.chance(1, 2) {
+                let into = match rng.below(3) {
+                    0 => 0,
+                    1 => far.0[0].len() + 1,
+                    _ => far.0[0].len() + 1 + far.0[1].len() + 1,
+                };
+                (16384 + rng.range(0, 2) - 1 - before).saturating_sub(into)
+            } else {
+                rng.range(16300, 16500)
+            };
+            m.sec[0].push(rec(Name::from_labels(&[b"pad"]), T_TXT, RData::Opaque(vec![0xc0; pad])));
             for _ in 0..rng.range(2, 6) {
                 m.sec[0].push(a_rec(far.clone()));
                 m.sec[1].push(rec(far.clone(), T_NS, RData::Name(Name(vec![b"ns".to_vec()]).concat(&far))));
